@@ -849,7 +849,6 @@ func (p *parser) parseForStatement() Node {
 			p.advancePastNL()
 			return nil
 		}
-		p.scope.set(forNode.LoopVar.Name, forNode.LoopVar)
 		p.advance() // advance past loopVarName
 		p.assertToken(lexer.DECLARE)
 		p.advance() // advance past :=
@@ -861,6 +860,11 @@ func (p *parser) parseForStatement() Node {
 	tok := p.cur
 	p.advance() // advance past range
 	nodes := p.parseExprList()
+	if forNode.LoopVar != nil {
+		// The loop variable is not visible in the range expression, which
+		// is evaluated before the loop variable exists.
+		p.scope.set(forNode.LoopVar.Name, forNode.LoopVar)
+	}
 	if len(nodes) == 0 {
 		p.appendError("range cannot be empty")
 		return nil // previous error
